@@ -6,6 +6,7 @@ for trivial reasons — the abstract file system can express every escape the me
 (ii) which theorem breaks first if the corresponding line of C is removed.
 -/
 import Sqfs.Spec.Unpack
+import Sqfs.Model.UnpackRepaired
 namespace Sqfs.Witness.C06
 open Sqfs.Path Sqfs.Unpack
 
@@ -107,5 +108,13 @@ theorem prepopulated_symlink_escapes :
   have := congrFun h [[100], Pw]
   revert this
   decide
+
+/-- **The repaired code on the same witness**: `mkdir a` answers `EEXIST`, `lstat` says "symbolic link", the run ends
+    there with exit status 1 and `/d/p` does not appear — while the current code (`unpackMain`) puts the file there. -/
+theorem repaired_planted_symlink_confined :
+    (unpackMainR id {} dirWithFile none noFaults (fun _ => false) [Rn] fsPlanted).exit = 1 ∧
+    (unpackMainR id {} dirWithFile none noFaults (fun _ => false) [Rn] fsPlanted).trace = [(.mkdir A 0o755, some .EEXIST)] ∧
+    (unpackMainR id {} dirWithFile none noFaults (fun _ => false) [Rn] fsPlanted).fs [[100], Pw] = none ∧
+    (unpackMain id {} dirWithFile none noFaults [Rn] fsPlanted).fs [[100], Pw] ≠ none := by decide
 
 end Sqfs.Witness.C06
